@@ -64,8 +64,9 @@ pub fn run_case(c: &MiriCase) -> MiriOutcome {
         cmd.args(["--features", "miri-engine"]);
     }
     cmd.args(["--", &c.mode, &c.scenario_seed.to_string()]);
-    let out = match cmd.output() {
-        Ok(o) => o,
+    cmd.stdout(std::process::Stdio::piped()).stderr(std::process::Stdio::piped());
+    let child = match cmd.spawn() {
+        Ok(c) => c,
         Err(e) => {
             return MiriOutcome {
                 ok: false,
@@ -75,6 +76,29 @@ pub fn run_case(c: &MiriCase) -> MiriOutcome {
             }
         }
     };
+    // an interpreter run that does not come back within 40 minutes is abandoned (inconclusive, never a violation).
+    // Only cargo is killed; orphaned interpreter processes end with their seeds.
+    let watch = crate::sup::Watchdog::start(child.id(), 2400);
+    let out = match child.wait_with_output() {
+        Ok(o) => o,
+        Err(e) => {
+            watch.finish();
+            return MiriOutcome {
+                ok: false,
+                class: "inconclusive".into(),
+                excerpt: format!("cargo miri: {e}"),
+                unavailable: false,
+            };
+        }
+    };
+    if watch.finish() {
+        return MiriOutcome {
+            ok: false,
+            class: "inconclusive".into(),
+            excerpt: "interpreter run abandoned after 2400 s".into(),
+            unavailable: false,
+        };
+    }
     let stdout = String::from_utf8_lossy(&out.stdout).to_string();
     let stderr = String::from_utf8_lossy(&out.stderr).to_string();
     if out.status.success() {
